@@ -15,6 +15,13 @@ def run(tier, seed):
     # pickle and two further kernels
     for cb in out["r"].get("chain_bad", []):
         out["violations"].append(_pipe.violation(cb, "result-not-usable(" + cb["what"] + ")", "native-chain", "C02"))
+    # "well-formed in the REQUESTED format": the modes and mode ordering the returned tensor reports
+    for x in out["recs"]:
+        if "format-label" in (x.get("native") or {}).values():
+            out["violations"].append(_pipe.violation(x, "returned-format-differs-from-requested", "native-replay", "C02"))
+    for x in out["traces"]:
+        if not x.get("dims_ok", True):
+            out["violations"].append(_pipe.violation(x, "returned-dimensions-or-format-differ-from-requested", "native-trace", "C02"))
     out["coverage"]["chained_results"] = out["r"].get("chained", 0)
     return out
 
